@@ -827,6 +827,7 @@ func pkgDir(short string) string {
 func runRTPackage(P *Program, L *Library, sp string, keys []string, iters, seed, onlyIter int) []*rtResult {
 	x := newExec(P, L)
 	x.closures = map[string]*closureInfo{}
+	x.known = map[string]string{}
 	c := &rtCompiler{x: x, pkg: sp, tpkg: x.pkgTypes(sp), imports: map[string]string{}, specs: map[string]bool{}, specCode: map[string]string{}, pool: map[string]bool{}, bindings: map[string]bool{}}
 	bindPath := filepath.Join(verifDir, "rt", sp+"_bindings.go.txt")
 	bindSrc := ""
